@@ -8,7 +8,7 @@ ID = "C16"
 RULE = ("E-INPUT: start instants (days 27-31/1-2 around every month end and every Sunday of 2019-2020 x 2 times of day, 4 early "
         "instants from 1900-1950, a seeded instant; thorough: every day 2019-2022 x 3 times of day) x a 42-rung span ladder "
         "1 ms..250 y (incl. 7,8,9 ms and 28-31 d) x counts (quick {2,3,5,10,17,50}; thorough 2..50) x both orientations, "
-        "through the real TimeScale().domain(..).ticks(m); plus scale/copy histories (domain, [ticks], copy, re-domain the copy, ticks on both) over 4 starts x span pairs of different magnitude, compared with fresh scales; on every sixth start a plain request judged right after a two-argument request ticks(m, step) on another scale of the same span. Oracle: no exception, strictly increasing, in-domain, calendar class "
+        "through the real TimeScale().domain(..).ticks(m); plus scale/copy histories (domain, [ticks], copy, re-domain the copy, ticks on both) over 4 starts x span pairs of different magnitude, compared with fresh scales; on every sixth start a plain request judged right after a two-argument request ticks(m, step) on another scale of the same span, or after ticks(m) on a scale constructed with its own tick-method table. Oracle: no exception, strictly increasing, in-domain, calendar class "
         "from the smallest gap (R-CAL), gap ratio <= 2, count bounds. Non-trivial: >= 2 ticks; separately counted: domains "
         "crossing a 29th-31st, sub-second steps.")
 ASSUMPTIONS = ["TZ=UTC in this check; zone independence is C18", "degenerate (zero-span) domains are outside the property"]
@@ -98,16 +98,22 @@ def judge_after_step_form(st, sp, m, rev, step, acc=None):
     en = st + timedelta(milliseconds=sp)
     try:
         with horizon(10.0):
-            list(TimeScale().domain([st, en]).ticks(m, step))
+            if step == "custom-table":
+                # a scale constructed with its own tick-method table (constructor argument `methods`): every row steps by 1
+                import labella.scale as S
+                other = TimeScale(methods=[[row[0], 1] for row in S.d3_time_scaleLocalMethods])
+                list(other.domain([st, en]).ticks(m))
+            else:
+                list(TimeScale().domain([st, en]).ticks(m, step))
     except Exception:
-        pass  # what the two-argument form returns or raises is outside the property
+        pass  # what the other scale returns or raises is outside the property
     if acc is not None:
         acc.counters["plain_requests_after_step_form"] += 1
     bad = judge(st, sp, m, rev, acc)
     if bad:
         from mc.core import purge_labella
         purge_labella()  # module state may be damaged: the cases that follow start from a re-imported library
-        return bad[0] + ":after-step-form", "after ticks(%d, %d) on some scale: %s" % (m, step, bad[1])
+        return bad[0] + ":after-step-form", "after ticks(%d, %r) on some scale: %s" % (m, step, bad[1])
     return None
 
 
@@ -213,7 +219,7 @@ def run_shard(shard):
                         acc.violation({"start": st, "span_ms": sp, "m": m, "rev": rev}, bad[0], bad[1],
                                       order=(sp, m, int(rev), cal.ms_of(st)))
             if (si // shard["mod"]) % 6 == 0:  # every sixth start: a two-argument request first, then the plain one
-                for m, step in ((7, 2), (23, 50)):
+                for m, step in ((7, 2), (23, 50), (51, "custom-table")):  # a count no plain request in this check uses
                     bad = judge_after_step_form(st, sp, m, False, step, acc)
                     acc.evals += 1
                     acc.trans += 1
